@@ -100,7 +100,7 @@ LossOK(c)  == \A k \in Universe(c) : ValOf(c, k) \in Admissible(k)
 
 \* a mutator of key k starts: scans can no longer vouch for k
 Touch(sc, k) == [s \in DOMAIN sc |->
-                   IF sc[s].st = "active"
+                   IF sc[s].st \in {"active", "done"}
                    THEN [sc[s] EXCEPT !.untouched = DelF(@, k), !.dirty = TRUE]
                    ELSE sc[s]]
 
@@ -230,7 +230,9 @@ ScanRet(t, r) ==
   /\ pend[t].st = "inv" /\ pend[t].op = "next"
   /\ r.err = "" /\ ~r.done
   /\ LET s == pend[t].scan IN
-     /\ s \in DOMAIN scans /\ scans[s].st = "active"
+     \* "ErrIterationDone on every further call" is promised for a database nobody modifies: an iterator that
+     \* has reported the end may go on when writers have grown the index since
+     /\ s \in DOMAIN scans /\ (scans[s].st = "active" \/ (scans[s].st = "done" /\ scans[s].dirty))
      /\ <<r.k, r.v>> \in everPut
      /\ scans' = [scans EXCEPT ![s].ret = Append(@, <<r.k, r.v>>)]
   /\ pend' = [pend EXCEPT ![t] = Idle]
@@ -258,11 +260,15 @@ ScanDone(t, r) ==
 \* An image of the directory was taken: by a process crash (everything written so far is
 \* there, an in-flight data write possibly torn) or by a power loss (unsynced data possibly
 \* gone).  `lock' says whether the image contains a lock file, i.e. an unfinished session.
-Image(lossy, lock) ==
+\* `failed': an Open attempt that failed with a (injected, transient) file-system error preceded the
+\* successful one.  The property speaks about the next SUCCESSFUL Open: it must recover an unclean
+\* directory; whether it also recovers a clean one on which a failed attempt left its lock file
+\* behind is not judged (a needless recovery changes no contents).
+Image(lossy, lock, failed) ==
   /\ mode \in {"open", "closed", "image"}
   /\ back' = IF mode = "image" THEN back ELSE mode
   /\ mode' = "image"
-  /\ img' = [lossy |-> lossy, lock |-> lock, seen |-> FALSE, c |-> EmptyMap]
+  /\ img' = [lossy |-> lossy, lock |-> lock, failed |-> failed, seen |-> FALSE, c |-> EmptyMap]
   /\ UNCHANGED <<kv, pend, cfg, seq, ver, acked, floor, closing, closedLin, scans, everPut, bk, held>>
 
 \* what an Open observed: contents c (read back key by key), Count, Has, a full scan
@@ -277,7 +283,8 @@ Observed(r, c) ==
 Reopened(r) ==
   /\ mode = "image"
   /\ Observed(r, r.kv)
-  /\ r.recovered = img.lock                         \* C13: recovery iff the last session did not finish Close
+  /\ IF img.failed THEN img.lock => r.recovered
+     ELSE r.recovered = img.lock                    \* C13: recovery iff the last session did not finish Close
   /\ IF img.lossy THEN LossOK(r.kv) ELSE CrashOK(r.kv)
   /\ img.seen => r.kv = img.c                       \* C04: recovering twice gives the same contents
   /\ img' = [img EXCEPT !.seen = TRUE, !.c = r.kv]
@@ -365,7 +372,7 @@ InitAbs(c) ==
   /\ acked = [x \in {} |-> 0]
   /\ floor = [x \in {} |-> 0]
   /\ closing = FALSE /\ closedLin = FALSE
-  /\ img = [lossy |-> FALSE, lock |-> FALSE, seen |-> FALSE, c |-> EmptyMap]
+  /\ img = [lossy |-> FALSE, lock |-> FALSE, failed |-> FALSE, seen |-> FALSE, c |-> EmptyMap]
   /\ scans = [x \in {} |-> 0]
   /\ everPut = {}
   /\ bk = [x \in {} |-> 0]
@@ -382,7 +389,7 @@ ResetAbs(c) ==
   /\ acked' = [x \in {} |-> 0]
   /\ floor' = [x \in {} |-> 0]
   /\ closing' = FALSE /\ closedLin' = FALSE
-  /\ img' = [lossy |-> FALSE, lock |-> FALSE, seen |-> FALSE, c |-> EmptyMap]
+  /\ img' = [lossy |-> FALSE, lock |-> FALSE, failed |-> FALSE, seen |-> FALSE, c |-> EmptyMap]
   /\ scans' = [x \in {} |-> 0]
   /\ everPut' = {}
   /\ bk' = [x \in {} |-> 0]
